@@ -289,3 +289,51 @@ Proof.
   rewrite E. exact F.
 Qed.
 End StorageProofs.
+
+(* ---- soundness for proofs of the honest length ---- *)
+Section Sound.
+Variable H : bytes -> bytes.
+Notation node := (Rhp.node H).
+Notation mroot := (Rhp.mroot H).
+Notation hash := bytes.
+
+Definition NodeCollision : Prop := exists a b c d : hash, (a, b) <> (c, d) /\ node a b = node c d.
+
+Lemma bytes_eq_dec : forall a b : hash, {a = b} + {a <> b}.
+Proof. apply list_eq_dec. apply N.eq_dec. Qed.
+
+(* two proofs of the same length that fold to the same value under the same rule are the same proof of the same leaf,
+   or a collision of the node hash is in hand *)
+Lemma fold_rule_injective i sth : forall p q x y, length p = length q ->
+  fold_rule H x i sth p = fold_rule H y i sth q -> (x = y /\ p = q) \/ NodeCollision.
+Proof.
+  induction p as [|s p IH] using rev_ind; intros q x y L E.
+  - destruct q; [|discriminate]. left. split; [exact E | reflexivity].
+  - destruct q as [|t q] using rev_ind; [rewrite app_length in L; cbn in L; lia|]. clear IHq.
+    rewrite !app_length in L. cbn [length] in L. assert (L' : length p = length q) by lia.
+    rewrite !fold_rule_snoc, L' in E.
+    set (F := fold_rule H x i sth p) in *. set (G := fold_rule H y i sth q) in *.
+    destruct (rule i sth (Z.of_nat (length q))).
+    + destruct (bytes_eq_dec s t) as [->|Ns]; [destruct (bytes_eq_dec F G) as [Eq|Nf]|].
+      * destruct (IH q x y L' Eq) as [[-> ->]|C]; [left; split; reflexivity | right; exact C].
+      * right. exists t, F, t, G. split; [congruence | exact E].
+      * right. exists s, F, t, G. split; [congruence | exact E].
+    + destruct (bytes_eq_dec s t) as [->|Ns]; [destruct (bytes_eq_dec F G) as [Eq|Nf]|].
+      * destruct (IH q x y L' Eq) as [[-> ->]|C]; [left; split; reflexivity | right; exact C].
+      * right. exists F, t, G, t. split; [congruence | exact E].
+      * right. exists F, s, G, t. split; [congruence | exact E].
+Qed.
+
+(* soundness for proofs of the honest length: what verifies is the true leaf with its true siblings *)
+Theorem storage_proof_v2_sound_same_length (L : list hash) filesize i d x proof : 0 < filesize < 2 ^ 64 ->
+  Z.of_nat (length L) = sp_num_leaves filesize -> (i < length L)%nat ->
+  length proof = length (sp_prove H (length L) L i) ->
+  sp_root_v2 H x (Z.of_nat i) filesize proof = mroot L ->
+  (x = nth i L d /\ proof = sp_prove H (length L) L i) \/ NodeCollision.
+Proof.
+  intros Hf Hn Hi Hl Hv. destruct (sp_prove_verifies H (length L) L i d Hi (Nat.le_refl _)) as [F S]. cbv zeta in F, S.
+  rewrite sp_root_v2_is_fold in Hv; rewrite (last_is_pred filesize Hf), <- Hn in *.
+  - rewrite <- F in Hv. apply (fold_rule_injective _ _ _ _ _ _ Hl Hv).
+  - rewrite Hl. split; [|exact S]. unfold blen. destruct (_ =? 0); [lia|]. pose proof (Z.log2_nonneg (Z.lxor (Z.of_nat i) (Z.of_nat (length L) - 1))). lia.
+Qed.
+End Sound.
